@@ -6,4 +6,6 @@ export GOFLAGS=-mod=mod GOPROXY=off
 mkdir -p .work/bin evidence replays
 cp /repo/go.sum mc/go.sum
 (cd mc && go build -o ../.work/bin/mc ./cmd/mc) || exit 1
+mkdir -p .work/overlay
+(cd mc && go run ./cmd/rewrite -repo /repo -out "$PWD/../.work/overlay" -shims "$PWD/shims" >/dev/null && go build -overlay="$PWD/../.work/overlay/overlay.json" -o ../.work/bin/mcfs ./cmd/mcfs) || exit 1
 echo setup ok
